@@ -555,3 +555,127 @@ def report(repo: Repo, rep, rule: str, tier: str, keys):
         if any(key.startswith(k) for k in keys):
             rep.bad(rule, it.qualname, key, f"{msg} [{c} input(s)]", it.module.relpath, it.node.lineno)
     rep.ok(rule, it.qualname, f"{n} byte strings (the C06 corpus, and every program CPython's unpickler accepts among all sequences of up to 3 tokens of a 33-token opcode alphabet and of 4-5 tokens of a memo-centred and a call-centred alphabet; thorough: up to 4 of the full alphabet, 6 and 5 of the focused ones) decompiled by the interpreted Interpreter and compared with the reference unpickling machine built from pickletools' stack-effect table (depth, mark positions and memo keys after every opcode; calls and resolved globals) and, where CPython's unpickler loads them, with the value it builds", "", nontrivial=True)
+
+
+# ------------------------------------------------------------------------------------------------------------------------
+# C19: whenever a pickle decompiles, the safety check returns a verdict and a JSON-serialisable report
+# ------------------------------------------------------------------------------------------------------------------------
+class _StdlibOracle:
+    sa_callable = True
+
+    def __call__(self, name, *a, **k):
+        import sys
+
+        return isinstance(name, str) and name.split(".")[0] in sys.stdlib_module_names
+
+
+def safety_world(repo: Repo, oe, label: str, data: bytes) -> List[Tuple[str, str]]:
+    import json
+
+    A = "fickling.analysis"
+    pk = repo.cls("fickling.fickle.Pickled")
+    oe.externals["stdlib_list.in_stdlib"] = _StdlibOracle()
+    try:
+        P = oe.ref(pk).sa_attr("load")(data)
+        mod = P.sa_attr("ast")
+    except PyRaise:
+        return []  # does not parse / does not decompile: outside the property
+    cyclic = isinstance(mod, ast.AST) and _walk(mod)[1]
+    ab = repo.cls(f"{A}.Analysis")
+    subs = sorted((c for c in repo.classes.values() if c is not ab and repo.is_subclass(c, ab.qualname)), key=lambda c: (c.module.name != A, c.module.name, c.node.lineno))
+    az = oe.instantiate(repo.cls(f"{A}.Analyzer"), [[oe.instantiate(c, [], {}) for c in subs]], {})
+    cs = oe.module_global(repo.modules[A], "check_safety")
+    try:
+        r = cs(P, analyzer=az)
+    except PyRaise as pe:
+        return [(f"check-safety-raises:{pe.name}", f"{label}: the pickle decompiles, but check_safety raises {pe.name}")]
+    except RecursionError:
+        # the interpreted code recursed without bound - as the real code does on the same tree
+        return [(f"check-safety-raises:RecursionError:{'self-referential-value' if cyclic else 'other'}", f"{label}: the pickle decompiles{' (to a syntax tree that contains itself: the value is self-referential)' if cyclic else ''}, but check_safety recurses without bound (RecursionError)")]
+    devs = []
+    try:
+        sev = r.sa_attr("severity")
+        if not (isinstance(sev, tuple) and sev and sev[0] == "enum-member"):
+            devs.append(("verdict-not-a-severity", f"{label}: check_safety(...).severity is {sev!r}"))
+        for f in r.sa_attr("results"):
+            fs, fm = f.sa_attr("severity"), f.sa_attr("message")
+            if not (isinstance(fs, tuple) and fs and fs[0] == "enum-member"):
+                devs.append(("finding-without-severity", f"{label}: a finding carries {fs!r} as its severity"))
+            if not isinstance(fm, str) or not fm:
+                devs.append(("finding-without-message", f"{label}: a finding of {f.sa_attr('analysis_name')} carries {fm!r} as its message"))
+        d = r.sa_attr("to_dict")()
+    except PyRaise as pe:
+        return devs + [(f"report-raises:{pe.name}", f"{label}: building the report of a verdict raises {pe.name}")]
+    try:
+        json.dumps(d)
+    except (TypeError, ValueError) as ex:
+        devs.append((f"report-not-json:{type(ex).__name__}", f"{label}: the report is not JSON-serialisable: {str(ex)[:80]}"))
+    if not isinstance(d, dict) or "severity" not in d:
+        devs.append(("report-shape", f"{label}: the report is {str(d)[:80]}"))
+    return devs
+
+
+def _schunk(items):
+    from .props.c06 import _fresh_objeval
+
+    out = []
+    shared = None
+    for label, data in items:
+        try:
+            shared = shared or _fresh_objeval(_VREPO)
+            shared.steps = 0
+            out.append(("ok", safety_world(_VREPO, shared, label, data)))
+        except Unsupported as e:
+            out.append(("unsupported", f"{label}: {e}"))
+        except AnalysisError as e:
+            out.append(("unsupported", f"{label}: {e}"))
+    return out
+
+
+def explore_safety(repo: Repo, tier: str):
+    import multiprocessing as mp
+    import os
+    from concurrent.futures import ProcessPoolExecutor
+    from pathlib import Path
+
+    from .cache import cached, digest
+    from .props.c06 import _corpus
+
+    global _VREPO
+    _VREPO = repo
+    items = list(_corpus(tier))
+    for L in (1, 2, 3):
+        items += [("asm:" + l, d) for l, d in _valid_programs(list(TOKENS), L)]
+    c4 = [("asm:" + l, d) for l, d in _valid_programs(CALL_ALPHABET, 4)]
+    items += c4 if tier == "thorough" else c4[::4]
+    jobs = min(int(os.environ.get("SA_JOBS", "16")), os.cpu_count() or 1)
+    chunks = [items[i::jobs] for i in range(jobs)]
+
+    def compute():
+        try:
+            with ProcessPoolExecutor(max_workers=jobs, mp_context=mp.get_context("fork")) as ex:
+                return list(ex.map(_schunk, chunks))
+        except (OSError, RuntimeError):
+            return [_schunk(c) for c in chunks]
+
+    key = "safetyworlds-" + digest(repo, [m for m in repo.modules if m in ("fickling.fickle", "fickling.analysis", "fickling.ml", "fickling.exception")], f"{tier}|{jobs}", [Path(__file__), Path(__file__).parent / "props" / "c06.py"])
+    parts = cached(key, compute)
+    found: Dict[str, Tuple[int, str]] = {}
+    n = 0
+    for outs in parts:
+        for o in outs:
+            n += 1
+            if o[0] == "unsupported":
+                raise AnalysisError(f"safety worlds: cannot interpret check_safety over {o[1]}")
+            for key_, msg in o[1]:
+                c, m = found.get(key_, (0, msg))
+                found[key_] = (c + 1, m)
+    return found, n
+
+
+def report_safety(repo: Repo, rep, rule: str, tier: str):
+    found, n = explore_safety(repo, tier)
+    cs = repo.func("fickling.analysis.check_safety")
+    for key, (c, msg) in sorted(found.items()):
+        rep.bad(rule, cs.qualname, key, f"{msg} [{c} input(s)]", cs.file, cs.line)
+    rep.ok(rule, cs.qualname, f"{n} byte strings (the corpus and every accepted program of up to 3 opcode tokens, plus call-centred programs of 4) parsed, decompiled and analysed end to end by the interpreted code: each that decompiles gets a verdict that is a Severity, findings with a severity and a message, and a report json.dumps accepts", "", nontrivial=True)
